@@ -88,6 +88,9 @@ class EcuVariantRaw(HierarchyElementRaw):
             if not isinstance(dv_proxy, OdxLinkRef):
                 result.update(dv_proxy._build_odxlinks())
 
+        for vg in self.variable_groups:
+            result[vg.odx_id] = vg
+
         if self.dyn_defined_spec is not None:
             result.update(self.dyn_defined_spec._build_odxlinks())
 
